@@ -144,4 +144,60 @@ theorem costLoop_le (inp : Bytes) (env : Env) (m : Mode)
               · omega
     · omega
 
+/-! ### the cost twin follows the control flow of `loop`
+
+`loopC` is `loop` instrumented to return the visit count next to its result: the first component
+IS `loop` (`loopC_fst`) and the second IS `costLoop` (`loopC_snd`), so `cost` counts the visits of the
+very loop the other theorems are about, not of a look-alike. -/
+
+def loopC (inp : Bytes) (env : Env) (m : Mode) : (fuel i lwc uc : Nat) → (sb : Bytes) → Res × Nat
+  | 0, _, _, _, _ => (.fuel, 0)
+  | fuel + 1, i, lwc, uc, sb =>
+  if i < inp.length then
+    if escAt inp i then
+      match slice inp lwc (i - 1) with
+      | none => (.panic, 1)
+      | some s => ((loopC inp env m fuel (i + 1) i uc (sb ++ s)).1, 1 + (loopC inp env m fuel (i + 1) i uc (sb ++ s)).2)
+    else if !openAt inp i then
+      ((loopC inp env m fuel (i + 1) lwc uc sb).1, 1 + (loopC inp env m fuel (i + 1) lwc uc sb).2)
+    else if uc > 100 then
+      (.tooMany, 1)
+    else
+      match findClose inp i with
+      | .unclosed => ((loopC inp env m fuel (i + 1) lwc (uc + 1) sb).1, 1 + closeCost inp i + (loopC inp env m fuel (i + 1) lwc (uc + 1) sb).2)
+      | .at e =>
+        match slice inp lwc i, slice inp (i + 1) e with
+        | some pre, some key =>
+          if (env key).isNone ∧ m.errUnknown then (.unknown key, 1 + closeCost inp i)
+          else if (env key).isNone ∧ !m.unknownEmpty then
+            ((loopC inp env m fuel (i + 1) i uc (sb ++ pre)).1, 1 + closeCost inp i + (loopC inp env m fuel (i + 1) i uc (sb ++ pre)).2)
+          else
+            match m.valStr key (env key) with
+            | none => (.funcErr, 1 + closeCost inp i)
+            | some valStr =>
+              if valStr.isEmpty then
+                if m.errEmpty then (.emptyVal key, 1 + closeCost inp i)
+                else ((loopC inp env m fuel (e + 1) (e + 1) uc (sb ++ pre ++ m.empty)).1, 1 + closeCost inp i + (loopC inp env m fuel (e + 1) (e + 1) uc (sb ++ pre ++ m.empty)).2)
+              else ((loopC inp env m fuel (e + 1) (e + 1) uc (sb ++ pre ++ valStr)).1, 1 + closeCost inp i + (loopC inp env m fuel (e + 1) (e + 1) uc (sb ++ pre ++ valStr)).2)
+        | _, _ => (.panic, 0)
+  else
+    match slice inp lwc inp.length with
+    | none => (.panic, 0)
+    | some s => (.ok (sb ++ s), 0)
+
+theorem loopC_fst (inp : Bytes) (env : Env) (m : Mode) (fuel i lwc uc : Nat) (sb : Bytes) :
+    (loopC inp env m fuel i lwc uc sb).1 = loop inp env m fuel i lwc uc sb := by
+  fun_induction loopC inp env m fuel i lwc uc sb <;> rw [loop] <;> simp_all
+  all_goals (try (intro hgt; omega))
+  all_goals (try rw [if_neg (by omega)])
+  all_goals (try (split <;> (try split) <;> simp_all))
+
+theorem loopC_snd (inp : Bytes) (env : Env) (m : Mode) (fuel i lwc uc : Nat) (sb : Bytes)
+    (h : (loopC inp env m fuel i lwc uc sb).1 ≠ .panic) :
+    (loopC inp env m fuel i lwc uc sb).2 = costLoop inp env m fuel i uc := by
+  fun_induction loopC inp env m fuel i lwc uc sb <;> rw [costLoop] <;> simp_all
+  all_goals (try (intro hgt; omega))
+  all_goals (try rw [if_neg (by omega)])
+  all_goals (try (split <;> (try split) <;> simp_all))
+
 end CaddyModel.C18
